@@ -4,3 +4,14 @@ import CssVerif.Props.C06
 #print axioms CssVerif.C06.clean_however_it_ends
 #print axioms CssVerif.C06.settings_restored
 #print axioms CssVerif.C06.snapshot_shapes
+#print axioms CssVerif.C06.nested_checker_iff_grammar
+#print axioms CssVerif.C06.stack_restores
+#print axioms CssVerif.C06.stack_caller_last_set
+#print axioms CssVerif.C06.stack_state_at
+#print axioms CssVerif.C06.stack_inside
+#print axioms CssVerif.C06.stack_flag_at
+#print axioms CssVerif.C06.slot_wrong
+#print axioms CssVerif.C06.slot_wrong_always
+#print axioms CssVerif.C06.slot_restores_without_reentry
+#print axioms CssVerif.C06.slot_flag_at_without_reentry
+#print axioms CssVerif.C06.noReentry_wellNested
